@@ -59,7 +59,7 @@ func scenDev(c *vf.Ctx) {
 		}
 		fmt.Printf("%3d %s -> %s %s closed=%v unb=%v %s%s\n", i, sb, ab, lb, l.Obs.Closed, l.Obs.Unb, nb, extra)
 	}
-	fmt.Printf("ended=%v probe=%q\n", ended, res)
+	fmt.Printf("ended=%v probe=%q direct=%v\n", ended, res, w.Direct)
 	r := &sysRun{Cfg: cfg, Lines: w.Lines, Direct: w.Direct, Origin: "scendev"}
 	w.Cleanup()
 	rej, val := sysValidate(c, cfg, []*sysRun{r}, 1)
